@@ -157,12 +157,13 @@ fn check_dom(prop: &str, tier: Tier) {
             }),
         );
     }
-    if prop == "C09" || prop == "C10" {
+    if prop == "C09" || prop == "C10" || prop == "C11" {
         let (problems, n) = vh::deepdom::run_all();
         println!("{} deep/wide shape probes: {} subprocess runs, {} problems", prop, n, problems.len());
         for (key, what, case) in problems {
-            // an aborted process is a well-formedness matter (C09), a wrong result an effect matter (C10)
-            let mine = if key.ends_with("wrong-effect") { "C10" } else { "C09" };
+            // a wrong result is an effect matter (C10); an aborted process belongs to the clone
+            // property when a clone function did it (C11), otherwise to well-formedness (C09)
+            let mine = if key.ends_with("wrong-effect") { "C10" } else if key.contains("clone_") { "C11" } else { "C09" };
             if mine == prop {
                 run.violation(&key, &what, || case);
             }
@@ -170,7 +171,7 @@ fn check_dom(prop: &str, tier: Tier) {
         states += n;
         transitions += n;
         execs += n;
-        runs.insert("deep_and_wide_shape_probes".into(), json!({"subprocess_runs": n, "sizes": [12, 40, 1000, 100000], "shapes": ["chain", "star"], "operations": vh::deepdom::PROBES}));
+        runs.insert("deep_and_wide_shape_probes".into(), json!({"subprocess_runs": n, "sizes": [12, 40, 1000, 100000, 600000], "shapes": ["chain", "star"], "operations": vh::deepdom::PROBES}));
     }
     if prop == "C12" {
         let (out, cfgs) = now_part(&run, tier);
@@ -410,7 +411,7 @@ fn replay(prop: &str, file: &std::path::Path) {
             std::process::exit(if fs.is_empty() { 0 } else { 1 });
         }
         "C12" if case.get("tokens").is_some() => simple_replay("C12", vh::c12b::replay(case)),
-        "C09" | "C10" if case.get("deepdom").is_some() => {
+        "C09" | "C10" | "C11" if case.get("deepdom").is_some() => {
             let size = case["deepdom"]["size"].as_u64().unwrap_or(12) as usize;
             let what = case["deepdom"]["probe"].as_str().unwrap_or("descendants").to_owned();
             let r = vh::deepdom::probe(size, &what);
